@@ -296,3 +296,138 @@ class SearchMonitor(object):
                               index, (a0, b0), n, got[:80], want[:80]), got=got[:300], want=want[:300], **wit)
         if type(res).__name__ not in (type(m.rec).__name__, "SeqRecord", "Seq"):
             ctx.violation("group-type", "group(%d) returned a %s for a %s target" % (index, type(res).__name__, type(m.rec).__name__), **wit)
+
+
+# ----------------------------------------------------------------------------- C14
+
+def compare_reverse_complement(before, after, ctx, where, report, check_seq=True):
+    """judge `after` as the reverse complement of `before` (snapshot_for_rotation tuple)"""
+    s0, la0, ft0, meta0 = before
+    n = len(s0)
+    s1 = str(after.seq)
+    if check_seq and s1 != rc(s0):
+        report("rc-sequence", "%s: sequence %r is not the reverse complement of %r" % (where, s1[:60], s0[:60]), n=n)
+    ft1 = feature_table(after)
+    if set(ft1) != set(ft0):
+        report("rc-features-lost", "%s: feature keys %s became %s" % (where, sorted(map(str, ft0)), sorted(map(str, ft1))), n=n)
+    for key in ft0:
+        if key not in ft1:
+            continue
+        t0, i0, q0, p0 = ft0[key]
+        t1, i1, q1, p1 = ft1[key]
+        if (t0, q0) != (t1, q1):
+            report("rc-feature-metadata", "%s: feature %s type/qualifiers changed: %r -> %r" % (where, key, (t0, q0), (t1, q1)), n=n)
+        if p0 is None or p1 is None:
+            if p0 != p1:
+                report("rc-feature-location", "%s: feature %s location %r -> %r" % (where, key, p0, p1), n=n)
+            continue
+        stranded = all(st in (1, -1) for _, _, st in p0)
+        d0 = denote({"parts": p0}, n)
+        d1 = denote({"parts": p1}, n)
+        exp = [((n - 1 - p) % n, (-st if st else st)) for p, st in d0]
+        ctx.count("rc_feature_checks")
+        if [st for _, st in d1] != [st for _, st in exp] and len(d1) == len(exp):
+            report("rc-feature-strand", "%s: feature %s at %r became %r: strand not flipped" % (where, key, p0, p1), n=n, before=p0, after=p1)
+        elif not same_denotation(exp, d1, n, stranded=stranded):
+            report("rc-feature-location", "%s on length %d: feature %s at %r became %r, which is not the mirror image p -> n-1-p in the same reading order" % (where, n, key, p0, p1), n=n, before=p0, after=p1)
+
+
+class ReverseComplementMonitor(object):
+    """C14: post-condition on CircularRecord.reverse_complement (default arguments)."""
+
+    def __init__(self, ctx):
+        self.ctx = ctx
+
+    def install(self):
+        boot.boot()
+        from moclo.record import CircularRecord
+
+        self.CircularRecord = CircularRecord
+        wrap_method(CircularRecord, "reverse_complement", self._post, lambda rec, a, kw: snapshot_for_rotation(rec))
+
+    def _post(self, rec, a, kw, res, exc, before):
+        ctx = self.ctx
+        ctx.count("rc_calls")
+        n = len(before[0])
+        if exc is not None:
+            ctx.violation("rc-raises:%s" % type(exc).__name__, "reverse_complement() raised %s: %s (features %r)" % (
+                type(exc).__name__, str(exc)[:200], [v[3] for v in before[2].values()][:6]), n=n)
+            return
+        if not isinstance(res, self.CircularRecord):
+            ctx.violation("rc-type", "reverse_complement() returned a %s, not a CircularRecord" % type(res).__name__, n=n)
+            return
+        if a or any(k in kw for k in ("features",)):
+            return  # non-default feature handling requested by the caller
+        dna = set(before[0]) <= set("ACGTacgtNnRYSWKMBDHVryswkmbdhv")
+        compare_reverse_complement(before, res, ctx, "reverse_complement()", ctx.violation, check_seq=dna)
+        if snapshot_for_rotation(rec) != before:
+            ctx.violation("rc-mutates-operand", "reverse_complement() changed its operand", n=n)
+
+
+# ----------------------------------------------------------------------------- C15
+
+class CircleMonitor(object):
+    """C15: post-conditions on CircularRecord.__contains__ and __getitem__ (every call)."""
+
+    def __init__(self, ctx):
+        self.ctx = ctx
+
+    def install(self):
+        boot.boot()
+        from moclo.record import CircularRecord
+
+        self.CircularRecord = CircularRecord
+        wrap_method(CircularRecord, "__contains__", self._post_contains)
+        wrap_method(CircularRecord, "__getitem__", self._post_getitem)
+
+    def _post_contains(self, rec, a, kw, res, exc, token):
+        ctx = self.ctx
+        x = a[0]
+        if not isinstance(x, str):
+            ctx.count("contains_non_str")
+            return
+        ctx.count("contains_calls")
+        s = str(rec.seq)
+        n = len(s)
+        if exc is not None:
+            ctx.violation("contains-raises:%s" % type(exc).__name__, "%r in record(%r) raised %s" % (x[:40], s[:40], type(exc).__name__), s=s[:200], x=x[:200])
+            return
+        want = len(x) <= n and (x in s + s[: max(len(x) - 1, 0)])
+        spans = len(x) <= n and x not in s and want
+        ctx.hist("contains_class", "longer-than-record" if len(x) > n else "empty" if not x else
+                 "present-across-origin" if spans else "present-inside" if want else "absent")
+        if bool(res) != want:
+            mech = "contains-longer-than-record" if len(x) > n else ("contains-across-origin" if spans else "contains-wrong")
+            ctx.violation(mech, "%r in circular record %r answered %r; a string is contained exactly when it is no longer than the "
+                                "record and occurs in some rotation of it (%r)" % (x[:60], s[:60], res, want), s=s[:300], x=x[:300])
+
+    def _post_getitem(self, rec, a, kw, res, exc, token):
+        ctx = self.ctx
+        index = a[0]
+        s = str(rec.seq)
+        if not isinstance(index, slice):
+            ctx.count("getitem_int_calls")
+            if exc is None and isinstance(index, int) and str(res) != s[index]:
+                ctx.violation("getitem-letter", "record[%r] returned %r, not %r" % (index, res, s[index]))
+            return
+        ctx.count("getitem_slice_calls")
+        from Bio.SeqRecord import SeqRecord
+
+        wit = dict(s=s[:300], slice=[index.start, index.stop, index.step])
+        try:
+            want = s[index]
+        except Exception:
+            return
+        if exc is not None:
+            ctx.violation("slice-raises:%s" % type(exc).__name__, "record[%r:%r:%r] raised %s: %s" % (index.start, index.stop, index.step, type(exc).__name__, str(exc)[:100]), **wit)
+            return
+        if type(res) is not SeqRecord:
+            ctx.violation("slice-type", "record[%r:%r:%r] returned a %s, not a plain SeqRecord" % (index.start, index.stop, index.step, type(res).__name__), **wit)
+            return
+        if str(res.seq) != want:
+            ctx.violation("slice-text", "record[%r:%r:%r] has text %r, the string slice is %r" % (index.start, index.stop, index.step, str(res.seq)[:60], want[:60]), **wit)
+        topo = res.annotations.get("topology")
+        if isinstance(topo, str) and topo.lower() == "circular":
+            ctx.violation("slice-claims-circular", "record[%r:%r:%r] carries topology=%r" % (index.start, index.stop, index.step, topo), **wit)
+        if rec.annotations.get("topology") not in (None, "circular"):
+            pass
